@@ -7,6 +7,8 @@ using 5-bit immediates for 32-bit architectures.
 
 from __future__ import annotations
 
+from typing import ClassVar
+
 from xdsl.dialects.builtin import I32, IntegerAttr, StringAttr, i32
 from xdsl.dialects.riscv import (
     UI5,
@@ -149,6 +151,8 @@ class BclrIOp(RV32RdRsImmShiftOperation):
 
     name = "rv32.bclri"
 
+    ZERO_IMMEDIATE_IS_IDENTITY: ClassVar[bool] = False
+
     def py_operation(self, rs1: IntegerAttr[I32]) -> IntegerAttr[I32]:
         assert isinstance(self.immediate, IntegerAttr)
         return IntegerAttr(rs1.value.data & (~(1 << self.immediate.value.data)), i32)
@@ -165,6 +169,8 @@ class BextIOp(RV32RdRsImmShiftOperation):
     """
 
     name = "rv32.bexti"
+
+    ZERO_IMMEDIATE_IS_IDENTITY: ClassVar[bool] = False
 
     def py_operation(self, rs1: IntegerAttr[I32]) -> IntegerAttr[I32]:
         assert isinstance(self.immediate, IntegerAttr)
@@ -185,6 +191,8 @@ class BinvIOp(RV32RdRsImmShiftOperation):
 
     name = "rv32.binvi"
 
+    ZERO_IMMEDIATE_IS_IDENTITY: ClassVar[bool] = False
+
     def py_operation(self, rs1: IntegerAttr[I32]) -> IntegerAttr[I32]:
         assert isinstance(self.immediate, IntegerAttr)
         return IntegerAttr(rs1.value.data ^ (1 << self.immediate.value.data), i32)
@@ -201,6 +209,8 @@ class BsetIOp(RV32RdRsImmShiftOperation):
     """
 
     name = "rv32.bseti"
+
+    ZERO_IMMEDIATE_IS_IDENTITY: ClassVar[bool] = False
 
     def py_operation(self, rs1: IntegerAttr[I32]) -> IntegerAttr[I32]:
         assert isinstance(self.immediate, IntegerAttr)
